@@ -91,7 +91,7 @@ Section Sim.
 
   (** ** The raw iterator with a complete point in its queues does not touch the file *)
   Lemma raw_next_pending q records read v qs1 s :
-    read < records -> 1 <= qr_available q -> pop_fronts (q_queues q) = Ok (v, qs1) ->
+    read < records -> 1 <= qr_available q -> pop_fronts (q_proto q) (q_queues q) = Ok (v, qs1) ->
     grun step (raw_next log_size (mkRaw q records read)) s =
     (s, Ok (mkRaw (mkQr (q_proto q) (q_streams q) qs1) records (read + 1), Item v)).
   Proof.
@@ -119,7 +119,7 @@ Section Sim.
   (** ** Complete points pending in the raw iterator's queues, no more than the
       point cloud still has, are what it delivers next *)
   Lemma pending_prefix : forall f q records read P qsP s s' raws itf,
-    pop_raws (length P) (q_queues q) = Ok (P, qsP) -> N.of_nat (length P) <= qr_available q ->
+    pop_raws (length P) (q_proto q) (q_queues q) = Ok (P, qsP) -> N.of_nat (length P) <= qr_available q ->
     N.of_nat (length P) <= records - read ->
     grun step (raw_collect_st f log_size (mkRaw q records read) []) s = (s', Ok (raws, itf)) ->
     exists tail, raws = P ++ tail.
@@ -130,11 +130,11 @@ Section Sim.
     - destruct P as [|v P'].
       + exists raws. reflexivity.
       + cbn [length pop_raws] in HP.
-        destruct (pop_fronts (q_queues q)) as [[vs qs1]| |] eqn:Epop; try discriminate.
-        destruct (pop_raws (length P') qs1) as [[P1 q1]| |] eqn:E1; try discriminate.
+        destruct (pop_fronts (q_proto q) (q_queues q)) as [[vs qs1]| |] eqn:Epop; try discriminate.
+        destruct (pop_raws (length P') _ qs1) as [[P1 q1]| |] eqn:E1; try discriminate.
         injection HP as -> -> ->. cbn [length] in Hle, Hrem.
-        assert (Hav1 : 1 <= avail (q_queues q)) by (rewrite <- qr_available_avail; lia).
-        pose proof (avail_pop_fronts _ _ _ Hav1 Epop) as Hav.
+        assert (Hav1 : 1 <= avail (q_proto q) (q_queues q)) by (rewrite <- qr_available_avail; lia).
+        pose proof (avail_pop_fronts _ _ _ _ Hav1 Epop) as Hav.
         rewrite <- qr_available_avail in Hav, Hav1.
         assert (Hlt : read < records) by lia.
         rewrite (raw_collect_item f _ s s _ v (raw_next_pending q records read v qs1 s Hlt Hav1 Epop)) in H.
@@ -142,7 +142,7 @@ Section Sim.
           try discriminate.
         injection H as _ <- <-.
         assert (Hk : N.of_nat (length P') <= qr_available (mkQr (q_proto q) (q_streams q) qs1)).
-        { rewrite qr_available_avail. cbn [q_queues]. lia. }
+        { rewrite qr_available_avail. cbn [q_queues q_proto]. lia. }
         assert (Hr : N.of_nat (length P') <= records - (read + 1)) by lia.
         destruct (IH (mkQr (q_proto q) (q_streams q) qs1) records (read + 1) P' qsP s s2 l it2 E1 Hk Hr E2) as [tail Ht].
         exists tail. cbn [app]. f_equal. exact Ht.
@@ -150,7 +150,7 @@ Section Sim.
 
   (** ** Popping and converting a batch *)
   Lemma pop_points_view : forall n q qa ra pa P qs' ptsn,
-    pop_raws n (q_queues q) = Ok (P, qs') ->
+    pop_raws n (q_proto q) (q_queues q) = Ok (P, qs') ->
     Forall (fun raw => length raw = length (pc_prototype pc)) P ->
     Forall2 viewed P ptsn ->
     exists pts0, pop_points n (mk qa ra pa) q = Ok (pts0, mkQr (q_proto q) (q_streams q) qs') /\
@@ -158,8 +158,8 @@ Section Sim.
   Proof.
     induction n as [|n IH]; intros q qa ra pa P qs' ptsn HP HL HV; cbn [pop_raws pop_points] in *.
     - injection HP as <- <-. inversion HV; subst. exists []. destruct q; split; reflexivity.
-    - destruct (pop_fronts (q_queues q)) as [[vs qs1]| |] eqn:Epop; try discriminate.
-      destruct (pop_raws n qs1) as [[P1 q1]| |] eqn:E1; try discriminate. injection HP as <- <-.
+    - destruct (pop_fronts (q_proto q) (q_queues q)) as [[vs qs1]| |] eqn:Epop; try discriminate.
+      destruct (pop_raws n _ qs1) as [[P1 q1]| |] eqn:E1; try discriminate. injection HP as <- <-.
       inversion HV as [|? p ? ptsn' Hv HV']; subst. inversion HL as [|? ? Hl HL']; subst.
       pose proof (pop_point_view fcos fsin fasin fatan2 pc qa o ra pa rgs vs Hl Hrg) as Hpv. cbv zeta in Hpv.
       fold (mk qa ra pa) in Hpv. rewrite Hv in Hpv.
@@ -212,7 +212,7 @@ Section Sim.
   (** ** The simulation *)
   Definition related (q_r q_s : qr) (P : list (list rvalue)) (pts : list point) : Prop :=
     q_proto q_s = q_proto q_r /\ q_streams q_s = q_streams q_r /\
-    pop_raws (length P) (q_queues q_r) = Ok (P, q_queues q_s) /\
+    pop_raws (length P) (q_proto q_r) (q_queues q_r) = Ok (P, q_queues q_s) /\
     N.of_nat (length P) <= qr_available q_r /\
     Forall2 viewed P pts /\
     qr_wf q_r /\ q_proto q_r = proto_dtypes pc.
@@ -250,7 +250,7 @@ Section Sim.
         cbn [raw_collect_st] in H. apply grun_bind_ok in H. destruct H as (s1 & [rit' o'] & Hnext & H).
         unfold raw_next in Hnext. cbn [ri_records ri_read ri_q] in Hnext. rewrite E in Hnext.
         apply grun_bind_ok in Hnext. destruct Hnext as (s1' & q1 & Hrefill & Hnext).
-        destruct (pop_fronts (q_queues q1)) as [[v qs1]| |] eqn:Epop; try discriminate.
+        destruct (pop_fronts (q_proto q1) (q_queues q1)) as [[v qs1]| |] eqn:Epop; try discriminate.
         cbn [rret grun] in Hnext. injection Hnext as <- <- <-.
         rewrite raw_collect_st_acc in H. cbn [app] in H.
         destruct (grun step (raw_collect_st f log_size _ []) s1') as [s2 [[l it2]| |]] eqn:E2; cbn [res_map fst snd] in H;
@@ -258,17 +258,17 @@ Section Sim.
         injection H as <- <- <-. cbn [app] in HI.
         destruct (refill_wf step _ _ _ _ _ Hrefill Hwf) as (Hwf1 & Hp1 & Hav1).
         set (a := N.min (qr_available q1) (pc_records pc - read)) in *.
-        assert (Ha0 : N.of_nat (N.to_nat a) <= avail (q_queues q1)) by (unfold a; rewrite <- qr_available_avail; lia).
-        destruct (pop_raws_avail (N.to_nat a) (q_queues q1) Ha0) as (Pn & qsn & HPn & HLn & Havn).
+        assert (Ha0 : N.of_nat (N.to_nat a) <= avail (q_proto q1) (q_queues q1)) by (unfold a; rewrite <- qr_available_avail; lia).
+        destruct (pop_raws_avail (N.to_nat a) (q_proto q1) (q_queues q1) Ha0) as (Pn & qsn & HPn & HLn & Havn).
         destruct (N.to_nat a) as [|k] eqn:Ek; [lia|].
         pose proof HPn as HPn0. cbn [pop_raws] in HPn. rewrite Epop in HPn.
-        destruct (pop_raws k qs1) as [[Pn' qn']| |] eqn:En'; try discriminate. injection HPn as <- <-.
+        destruct (pop_raws k _ qs1) as [[Pn' qn']| |] eqn:En'; try discriminate. injection HPn as <- <-.
         cbn [length] in HLn. injection HLn as HLn.
-        assert (Ha1 : 1 <= avail (q_queues q1)) by (rewrite <- qr_available_avail; lia).
-        pose proof (avail_pop_fronts _ _ _ Ha1 Epop) as Hav2.
+        assert (Ha1 : 1 <= avail (q_proto q1) (q_queues q1)) by (rewrite <- qr_available_avail; lia).
+        pose proof (avail_pop_fronts _ _ _ _ Ha1 Epop) as Hav2.
         rewrite <- qr_available_avail in Hav2.
         assert (Hk : N.of_nat (length Pn') <= qr_available (mkQr (q_proto q1) (q_streams q1) qs1)).
-        { rewrite qr_available_avail. cbn [q_queues]. lia. }
+        { rewrite qr_available_avail. cbn [q_queues q_proto]. lia. }
         rewrite <- HLn in En'.
         assert (Hrem : N.of_nat (length Pn') <= pc_records pc - (read + 1)) by (unfold a in Ek; lia).
         destruct (pending_prefix f (mkQr (q_proto q1) (q_streams q1) qs1) (pc_records pc) (read + 1) Pn' qn' s1' s2 l it2 En' Hk Hrem E2) as [tail Ht].
@@ -294,11 +294,11 @@ Section Sim.
         rewrite Hout. reflexivity.
       + (* a converted point is waiting: no file access on either side *)
         inversion HV as [|? p ? pts' Hvp HV']; subst. cbn [length pop_raws] in HP.
-        destruct (pop_fronts (q_queues q_r)) as [[vs qs1]| |] eqn:Epop; try discriminate.
-        destruct (pop_raws (length P') qs1) as [[P1 q1]| |] eqn:E1; try discriminate.
+        destruct (pop_fronts (q_proto q_r) (q_queues q_r)) as [[vs qs1]| |] eqn:Epop; try discriminate.
+        destruct (pop_raws (length P') _ qs1) as [[P1 q1]| |] eqn:E1; try discriminate.
         injection HP as -> -> HQ. cbn [length] in Hle.
-        assert (Hav1 : 1 <= avail (q_queues q_r)) by (rewrite <- qr_available_avail; lia).
-        pose proof (avail_pop_fronts _ _ _ Hav1 Epop) as Hav.
+        assert (Hav1 : 1 <= avail (q_proto q_r) (q_queues q_r)) by (rewrite <- qr_available_avail; lia).
+        pose proof (avail_pop_fronts _ _ _ _ Hav1 Epop) as Hav.
         rewrite <- qr_available_avail in Hav, Hav1.
         assert (Hlt : read < pc_records pc) by lia.
         rewrite (raw_collect_item f _ s s _ v (raw_next_pending q_r _ read v qs1 s Hlt Hav1 Epop)) in H.
@@ -308,7 +308,7 @@ Section Sim.
         destruct (pop_fronts_typed _ _ _ _ HF0 Epop) as [_ HF2].
         destruct (IH (mkQr (q_proto q_r) (q_streams q_r) qs1) q_s P' pts' (read + 1) s s2 l it2) as (out & Hout & HVout).
         { repeat split; try assumption; cbn [q_proto q_streams q_queues]; try congruence.
-          rewrite qr_available_avail. cbn [q_queues]. lia. }
+          rewrite qr_available_avail. cbn [q_queues q_proto]. lia. }
         { exact E2. }
         { inversion HI; subst. assumption. }
         exists (p :: out). split; [|constructor; assumption].
@@ -341,7 +341,7 @@ Section Top.
   Qed.
 
   Lemma simple_open_run pc o rgs s s1 q0 :
-    grun step (qr_new (pc_file_offset pc) (proto_dtypes pc)) s = (s1, Ok q0) ->
+    grun step (qr_new (pc_file_offset pc) (pc_records pc) (proto_dtypes pc)) s = (s1, Ok q0) ->
     prepare_ranges pc = Ok rgs ->
     grun step (simple_open pc o) s = (s1, Ok (mk pc o rgs q0 0 [])).
   Proof.
@@ -352,7 +352,7 @@ Section Top.
 
   (** A failing constructor: the queue reader, or the ranges *)
   Lemma simple_open_qr_fails pc o s s1 r :
-    grun step (qr_new (pc_file_offset pc) (proto_dtypes pc)) s = (s1, r) -> (forall q, r <> Ok q) ->
+    grun step (qr_new (pc_file_offset pc) (pc_records pc) (proto_dtypes pc)) s = (s1, r) -> (forall q, r <> Ok q) ->
     exists r', grun step (simple_open pc o) s = (s1, r') /\ forall it, r' <> Ok it.
   Proof.
     intros Hq Hr. unfold simple_open, simple_new.
@@ -377,7 +377,7 @@ Section Top.
     unfold raw_read_all_st in Hraw. apply grun_bind_ok in Hraw. destruct Hraw as (s1 & rit & Hnew & Hraw).
     unfold raw_new in Hnew. apply grun_bind_ok in Hnew. destruct Hnew as (s1' & q0 & Hq & Hnew).
     cbn [rret grun] in Hnew. injection Hnew as <- <-.
-    destruct (qr_new_wf step _ _ _ _ _ Hq) as (Hwf & Hproto & Hqueues).
+    destruct (qr_new_wf step _ _ _ _ _ _ Hq) as (Hwf & Hproto & Hqueues).
     destruct (sim fcos fsin fasin fatan2 step pc o rgs log_size Hrg Hint fuel q0 q0 [] [] 0 s1' s' raws itf) as (out & Hout & HV).
     - unfold related. split; [reflexivity|]. split; [reflexivity|]. split; [reflexivity|].
       split; [cbn [length]; lia|]. split; [constructor|]. split; assumption.
